@@ -67,13 +67,17 @@ func genCases(seed int64, n, length, reads, tplRuns int, scale string) []drive.R
 		g := drive.NewGen(cs, "l1")
 		c := drive.ReadsCase{N: i + 1, Seed: cs, Scale: scale, Reads: reads, TplRuns: tplRuns}
 		c.Ops = drive.PrepareReadOps(g.History(length))
+		if i%3 == 1 {
+			// every third case: a directed account-metadata save ... delete pair around the random history
+			c.Ops = drive.AddDirectedMetaOps(c.Ops, []string{"users:a:main", "users:a", "orders:1"}[(i/3)%3])
+		}
 		// half of the cases run with every feature on; the others sweep the 12 feature combinations
 		if i%2 == 0 {
 			c.Features = fsets[0]
 		} else {
 			c.Features = fsets[(int(seed)+i/2)%len(fsets)]
 		}
-		c.Points = []int{length / 2, length}
+		c.Points = []int{len(c.Ops)/2 + 2, len(c.Ops)}
 		cases[i] = c
 	}
 	return cases
